@@ -5,7 +5,7 @@ mod graytobin;
 pub(crate) use delta::*;
 pub(crate) use gnss::*;
 
-use graytobin::graytobin;
+use graytobin::graytobin_code;
 use log::info;
 
 use crate::decoder::{ma_code, me_code};
@@ -32,12 +32,12 @@ pub fn altitude(message: &[u32], df: u32) -> Option<u32> {
     })
 }
 
-fn altitude_value(message: &[u32], code: Option<u16>) -> Option<u32> {
+fn altitude_value(_message: &[u32], code: Option<u16>) -> Option<u32> {
     match code {
         Some(code) => match code & 0b10 {
             0 => match code & 1 {
                 0 => {
-                    let (high, low) = graytobin(message);
+                    let (high, low) = graytobin_code(Some(code));
                     let value = high * 500 + low * 100;
                     match value {
                         1200.. => Some(high * 500 + low * 100 - 1200),
